@@ -183,6 +183,119 @@ def generate(repo):
         zeroing = [n for n in ast.walk(fn) if isinstance(n, ast.Assign) and ast.unparse(n.targets[0]) in ('newivar[lowerregion]', 'newivar[upperregion]')]
         if len(zeroing) != 2 or any(ast.unparse(z.value) not in ('0.0', '0') for z in zeroing):
             raise Unrecognised('growth assignments')
+
+        # ---------------------------------------------------------------- round 5: more of the stage control
+        # (a) the no-good-pixel branch
+        ng = [n for n in ast.walk(fn) if isinstance(n, ast.If) and ast.unparse(n.test).startswith('ngood')]
+        ngt = one(ng, 'ngood test').test
+        if not (isinstance(ngt, ast.Compare) and len(ngt.ops) == 1 and isinstance(ngt.comparators[0], ast.Constant)
+                and type(ngt.ops[0]) in (ast.Eq, ast.LtE, ast.Lt)):
+            raise Unrecognised('ngood test %s' % ast.unparse(ngt))
+        nogood = {ast.Eq: '(ngood =? %d)%%nat', ast.LtE: '(ngood <=? %d)%%nat', ast.Lt: '(ngood <? %d)%%nat'}[type(ngt.ops[0])] \
+            % int(ngt.comparators[0].value)
+        # (b) `sset = None` when all coefficients vanish
+        dead = [n for n in ast.walk(fn) if isinstance(n, ast.If) and 'sset.coeff' in ast.unparse(n.test)]
+        deadt = ast.unparse(one(dead, 'coefficient test').test)
+        if deadt != 'np.sum(np.absolute(sset.coeff)) == 0':
+            raise Unrecognised('coefficient test %s' % deadt)
+        # (c) the per-exposure range of the variance interpolation
+        inb = ast.unparse(one(assigns(fn, 'inbetween'), 'inbetween'))
+        mm = re.fullmatch(r'\((.+)\) & \((.+)\)', inb)
+        if not mm:
+            raise Unrecognised('inbetween = %s' % inb)
+        parts = []
+        for piece in mm.groups():
+            node = ast.parse(piece, mode='eval').body
+            node = subst_name(node, {'inloglam_r[these].min()': 'lo', 'inloglam_r[these].max()': 'hi', 'newloglam': 'p'})
+            parts.append(cmp_term(node, {'lo': 'lo', 'hi': 'hi', 'p': 'p', 'EPS': 'c1f_EPS'}))
+        inbetween = '%s && %s' % (parts[0], parts[1])
+        acc = [n for n in ast.walk(fn) if isinstance(n, ast.AugAssign) and ast.unparse(n.target) == 'newivar[jnbetween]']
+        acc = one(acc, 'newivar accumulation')
+        if not (isinstance(acc.op, ast.Add) and ast.unparse(acc.value) == 'result * newmask[jnbetween]'):
+            raise Unrecognised('newivar[jnbetween] %s' % ast.unparse(acc))
+        interps = [ast.unparse(v) for v in assigns(fn, 'result') + assigns(fn, 'smask')]
+        want = ['np.interp(newloglam[jnbetween], inloglam_r[these], objivar.ravel()[these] * fullcombmask[these])',
+                'np.interp(newloglam[jnbetween], inloglam_r[these], fullcombmask[these].astype(inloglam.dtype))']
+        if interps != want:
+            raise Unrecognised('variance interpolation %s' % interps)
+        # (d) running median of the weights for 2-D input
+        med = [n for n in ast.walk(fn) if isinstance(n, ast.Call) and ast.unparse(n.func) == 'djs_median']
+        med = one(med, 'djs_median call')
+        kw = {k.arg: k.value for k in med.keywords}
+        if not ('width' in kw and isinstance(kw['width'], ast.Constant) and isinstance(kw['width'].value, int)):
+            raise Unrecognised('djs_median width')
+        med_width = kw['width'].value
+        stk = [n for n in ast.walk(fn) if isinstance(n, ast.If) and ast.unparse(n.test) == 'objivar is not None and objivar.ndim > 1']
+        one(stk, 'stacked test (objivar.ndim > 1)')
+        # (e) the two iterfit calls
+        calls = [n for n in ast.walk(fn) if isinstance(n, ast.Call) and ast.unparse(n.func) == 'iterfit']
+        if len(calls) != 2:
+            raise Unrecognised('iterfit calls: %d' % len(calls))
+        reqs = set()
+        for cl in calls:
+            kw = {k.arg: ast.unparse(k.value) for k in cl.keywords}
+            if [ast.unparse(a) for a in cl.args] != ['inloglam_r[ss]', 'objflux.ravel()[ss]']:
+                raise Unrecognised('iterfit arguments')
+            iv = kw.pop('invvar', None)
+            if iv not in (None, 'objivar.ravel()[ss]'):
+                raise Unrecognised('iterfit invvar')
+            if set(kw) != {'nord', 'groupbadpix', 'requiren', 'bkspace'} or kw['nord'] != 'nord' or kw['bkspace'] != 'bkptbin':
+                raise Unrecognised('iterfit keywords %s' % kw)
+            reqs.add(int(kw['requiren']))
+        requiren = one(sorted(reqs), 'requiren')
+        # (f) iterfit's own defaults (pydl/pydlutils/bspline.py)
+        bsrc = open(os.path.join(repo, 'pydl', 'pydlutils', 'bspline.py')).read()
+        itf = find_function(ast.parse(bsrc), 'iterfit')
+        names = [a.arg for a in itf.args.args]
+        defs = dict(zip(names[len(names) - len(itf.args.defaults):], itf.args.defaults))
+        it_defaults = {}
+        for nm in ('upper', 'lower', 'maxiter'):
+            if not (nm in defs and isinstance(defs[nm], ast.Constant) and isinstance(defs[nm].value, int)):
+                raise Unrecognised('iterfit default %s' % nm)
+            it_defaults[nm] = defs[nm].value
+        # (g) aesthetics(): early return, damping length and the two tapers
+        afn = find_function(ast.parse(src), 'aesthetics')
+        first_if = [n for n in afn.body if isinstance(n, ast.If)]
+        if not (first_if and ast.unparse(first_if[0].test) == 'badpts.all()' and len(first_if[0].body) == 1
+                and ast.unparse(first_if[0].body[0]) == 'return flux' and ast.unparse(one(assigns(afn, 'badpts'), 'badpts')) == 'invvar == 0'):
+            raise Unrecognised('aesthetics early return')
+        dl_ = one(assigns(afn, 'l'), 'damping length')
+        if not (isinstance(dl_, ast.Constant) and isinstance(dl_.value, int)):
+            raise Unrecognised('damping length')
+        d1 = ast.unparse(one(assigns(afn, 'damp1'), 'damp1'))
+        d2 = ast.unparse(one(assigns(afn, 'damp2'), 'damp2'))
+        m1 = re.fullmatch(r'float\(min\((\w+), l\)\)', d1)
+        m2 = re.fullmatch(r'float\(min\((\w+), l\)\)', d2)
+        if not (m1 and m2 and m1.group(1) == 'mingood' and m2.group(1) in ('maxgood',)):
+            raise Unrecognised('damp1/damp2: %s ; %s' % (d1, d2))
+        tap = [ast.unparse(n.value) for n in ast.walk(afn) if isinstance(n, ast.AugAssign) and ast.unparse(n.target) == 'newflux']
+        if tap != ['0.5 * (1.0 + erf((pixels - mingood) / damp1))', '0.5 * (1.0 + erf((maxgood - pixels) / damp2))']:
+            raise Unrecognised('tapers %s' % tap)
+        tif = [ast.unparse(n.test) for n in ast.walk(afn) if isinstance(n, ast.If) and ('mingood' in ast.unparse(n.test) or 'maxgood' in ast.unparse(n.test))]
+        if tif != ['mingood > 0', 'maxgood < nflux - 1']:
+            raise Unrecognised('taper conditions %s' % tif)
+        # (h) preprocess_spectra: the de-redshifting call
+        psrc = open(os.path.join(repo, 'pydl', 'pydlspec2d', 'spec1d.py')).read()
+        pfn = find_function(ast.parse(psrc), 'preprocess_spectra')
+        pcalls = [n for n in ast.walk(pfn) if isinstance(n, ast.Call) and ast.unparse(n.func) == 'combine1fiber']
+        pc = one(pcalls, 'combine1fiber call in preprocess_spectra')
+        pargs = [ast.unparse(a) for a in pc.args]
+        pkw = {k.arg: ast.unparse(k.value) for k in pc.keywords}
+        if not (len(pc.args) == 3 and isinstance(pc.args[0], ast.BinOp) and ast.unparse(pc.args[0].left) == 'rowloglam'
+                and ast.unparse(pc.args[0].right) == 'logshift[iobj]' and pargs[1:] == ['flux[iobj, indx]', 'fullloglam']
+                and pkw.get('objivar') == 'ivar[iobj, indx]' and pkw.get('binsz') == 'dloglam' and pkw.get('aesthetics') == 'aesthetics'):
+            raise Unrecognised('preprocess_spectra call %s %s' % (pargs, pkw))
+        pp_shift = to_q(ast.BinOp(left=ast.Name(id='L', ctx=ast.Load()), op=pc.args[0].op, right=ast.Name(id='s', ctx=ast.Load())),
+                        {'L': 'L', 's': 's'})
+        lsh = [ast.unparse(v) for v in assigns(pfn, 'logshift')]
+        if lsh != ['np.zeros((nobj,), dtype=flux.dtype)', 'np.log10(1.0 + zfit)']:
+            raise Unrecognised('logshift %s' % lsh)
+        dlg = [ast.unparse(v) for v in assigns(pfn, 'dloglam')]
+        if dlg != ['loglam[1] - loglam[0]', 'fullloglam[1] - fullloglam[0]']:
+            raise Unrecognised('dloglam %s' % dlg)
+        keep = [v for v in assigns(pfn, 'indx')]
+        if [ast.unparse(v) for v in keep] != ['loglam > 0', 'loglam[iobj, :] > 0']:
+            raise Unrecognised('indx %s' % [ast.unparse(v) for v in keep])
     except (Unrecognised, SyntaxError, OSError, KeyError, ValueError) as e:
         info['error'] = '%s: %s' % (type(e).__name__, e)
         return None, info
@@ -208,11 +321,30 @@ Definition c1f_smooth_width : nat := %(width)d%%nat.
 Definition c1f_bad (f : Q) : bool := %(bad)s.
 Definition c1f_grow_lo (i : nat) : nat := (i - %(glo)d)%%nat.                    (* np.where(ibad-c < 0, 0, ibad-c) *)
 Definition c1f_grow_hi (n i : nat) : nat := Nat.min (i + %(ghi)d) (n - 1).       (* np.where(ibad+c > n-1, n-1, ibad+c) *)
-''' % {'eps': qlit(EPS), 'eps_src': eps, 'nord': nord, 'maxsep': qlit(maxsep_f), 'bkpt': qlit(bkpt_f),
+(* ---- round 5 *)
+Definition c1f_no_good (ngood : nat) : bool := %(nogood)s.               (* if ngood == 0: return zeros *)
+(* `if np.sum(np.absolute(sset.coeff)) == 0: sset = None` *)
+Definition c1f_coeff_dead (c : list Q) : bool := Qeq_bool (fold_right (fun a acc => Qabs a + acc) 0 c) 0.
+Definition c1f_inbetween (lo hi p : Q) : bool := %(inbetween)s.          (* per exposure: no EPS here *)
+Definition c1f_median_width : nat := %(med_width)d%%nat.                  (* djs_median(..., width=) when objivar.ndim > 1 *)
+Definition c1f_requiren : nat := %(requiren)d%%nat.                       (* iterfit(..., requiren=, bkspace=bkptbin, nord=nord) *)
+Definition c1f_iterfit_upper : Q := %(it_upper)s.                         (* defaults of iterfit() in bspline.py *)
+Definition c1f_iterfit_lower : Q := %(it_lower)s.
+Definition c1f_iterfit_maxiter : nat := %(it_maxiter)d%%nat.
+Definition c1f_damp_len : nat := %(damp_len)d%%nat.                       (* aesthetics(): l, damp1 = min(mingood, l), damp2 = min(maxgood, l) *)
+Definition c1f_taper1_on (mingood : nat) : bool := (0 <? mingood)%%nat.              (* if mingood > 0 *)
+Definition c1f_taper2_on (maxgood nflux : nat) : bool := (maxgood <? nflux - 1)%%nat.  (* if maxgood < nflux - 1 *)
+(* preprocess_spectra: combine1fiber(rowloglam - logshift[iobj], ..., binsz=fullloglam[1]-fullloglam[0]) *)
+Definition pp_shift (L s : Q) : Q := %(pp_shift)s.
+''' % {'nogood': nogood, 'inbetween': inbetween, 'med_width': med_width, 'requiren': requiren,
+       'it_upper': qlit(it_defaults['upper']), 'it_lower': qlit(it_defaults['lower']), 'it_maxiter': it_defaults['maxiter'],
+       'damp_len': dl_.value, 'pp_shift': pp_shift,'eps': qlit(EPS), 'eps_src': eps, 'nord': nord, 'maxsep': qlit(maxsep_f), 'bkpt': qlit(bkpt_f),
        'pad_lo': qlit(pad_lo), 'pad_hi': qlit(pad_hi), 'gap': cmps['ig1'], 'slice_extra': slice_extra,
        'min_group': min_group, 'inside': inside, 'smask': smask, 'width': width, 'bad': badt, 'glo': glo, 'ghi': ghi}
     info.update({'recognised': True, 'EPS': str(EPS), 'nord': nord, 'maxsep_factor': str(maxsep_f), 'bkptbin_factor': str(bkpt_f),
-                 'gap': cmps['ig1'], 'min_group': min_group, 'slice_extra': slice_extra, 'grow': [glo, ghi], 'smooth_width': width})
+                 'gap': cmps['ig1'], 'min_group': min_group, 'slice_extra': slice_extra, 'grow': [glo, ghi], 'smooth_width': width,
+                 'round5': {'no_good': nogood, 'inbetween': inbetween, 'median_width': med_width, 'requiren': requiren,
+                            'iterfit_defaults': it_defaults, 'damp_len': dl_.value, 'pp_shift': pp_shift}})
     return text, info
 
 
